@@ -82,6 +82,9 @@ func (s *Solver) preamble() {
 	if strings.Contains(s.argv[0], "z3") {
 		s.send(fmt.Sprintf("(set-option :timeout %d)\n", s.timeout))
 	} else {
+		// cvc5: models must be enabled before the logic is set; per-query limit in ms
+		s.send("(set-option :produce-models true)\n")
+		s.send(fmt.Sprintf("(set-option :tlimit-per %d)\n", s.timeout))
 		s.send("(set-logic QF_BV)\n")
 	}
 }
